@@ -922,23 +922,28 @@ def g5(ctx, res):
                      "build(value) | build(default) | raw default | the not-passed marker")
     cons = ctx.cls("Element").methods["construct"]
     v, prop = cons.params[1].name, cons.params[2].name
-    PC = Parents(cons)
-    seen_kinds = {}
-    for r in [n for n in walk_own(cons.body) if isinstance(n, ast.Return)]:
-        eff = inline_call(r.value, cons, ctx.prog) if r.value is not None else None
-        gs = flat_guards(PC, r)
-        kinds = set()
-        for t, pol in gs:
-            ia = isinstance_atom(t, pol)
-            if ia and ia[0] == v and ia[2] and len(ia[1]) == 1:
-                kinds.add(ia[1][0])
-        label = "list" if "list" in kinds else "dict" if "dict" in kinds else "other"
-        seen_kinds.setdefault(label, []).append(norm(eff) if eff is not None else "None")
-    ok = seen_kinds.get("list") == [f"self.__items__({v}, {prop})"] and \
-        seen_kinds.get("dict") == [f"_AnonymousObject(**self.__properties__({v}))"] and \
-        seen_kinds.get("other") == [v]
-    res.check(ok, cons, "list -> __items__(value, property_); dict -> __properties__(value); else value",
-              detail={"found": seen_kinds},
+    from .paths import decision_table_eval
+
+    def ev_k(e, A):
+        ia = isinstance_atom(e)
+        if ia and ia[0] == v and ia[2] and set(ia[1]) <= {"list", "dict"}:
+            return ("list" in ia[1] and A["LIST"]) or ("dict" in ia[1] and A["DICT"])
+        return None
+
+    def lab_k(p):
+        e = ret_expr(p)
+        if e is None:
+            return p.exit
+        e = inline_call(e, cons, ctx.prog)
+        return norm(e)
+    tablek, opq = decision_table_eval(V(ctx, cons).body, ["LIST", "DICT"], ev_k, lab_k)
+    wantk = {(True, False): {f"self.__items__({v}, {prop})"}, (False, True): {f"_AnonymousObject(**self.__properties__({v}))"},
+             (False, False): {v}}
+    got = {k: x for k, x in tablek.items() if k != (True, True)}
+    passthrough = any(v in labs and k != (False, False) for k, labs in got.items())
+    res.judge(True if got == wantk else (False if (passthrough or not opq) else None), cons,
+              "list -> __items__(value, property_); dict -> __properties__(value); else value",
+              detail={"found": {str(k): sorted(x) for k, x in got.items()}, "opaque": sorted(opq)},
               reason="members of arrays and objects are validated by recursion through the resolution helpers")
     new = ctx.func("Object.__new__")
     cls, v, prop = [p.name for p in new.params[:3]]
@@ -1557,23 +1562,31 @@ def g12(ctx, res):
               reason="every item, in order, no filter: arrays keep their length and order")
     pc = ctx.func("Properties.__call__")
     v = pc.params[1].name
-    ok1 = False
-    for node, b in find(f"{v} = {{**{{MV_p.MV_attr: NotPassed() for MV_p in self.props.values()}}, **{v}}}", pc):
-        ok1 = True
-    for node, b in find(f"{v} = {{**{{MV_p.source: NotPassed() for MV_p in self.props.values()}}, **{v}}}", pc):
-        ok1 = True
-    for node, b in find(f"{v} = {{**{{MV_p.name: NotPassed() for MV_p in self.props.values()}}, **{v}}}", pc):
-        ok1 = True
-    res.check(ok1, pc, "value = {**{<placeholder for every declared property>}, **value}",
+    vpc = V(ctx, pc, keep=(v,)).body
+    bpc = builders(vpc)
+    ok1 = None
+    for node in walk_own(vpc):
+        if isinstance(node, ast.Assign) and any(norm(t) == v for t in node.targets) and isinstance(node.value, ast.Dict) \
+                and node.value.keys and all(k is None for k in node.value.keys):
+            spreads = node.value.values
+            if norm(spreads[-1]) != v:
+                ok1 = False  # the supplied members do not override the placeholders
+                continue
+            for sp in spreads[:-1]:
+                srcs = [b for b in bpc if (b.node is sp) or (isinstance(sp, ast.Name) and b.name == sp.id and b.kind == "dict")]
+                for b in srcs:
+                    good = norm(b.iter) == "self.props.values()" and not b.guards and norm(b.elt) == "NotPassed()"
+                    ok1 = good if ok1 is None else (ok1 and good)
+    res.judge(ok1, pc, "value = {**{<placeholder for every declared property>}, **value}",
               reason="placeholders for ALL declared properties (no filter); supplied members override placeholders")
-    ok2 = False
-    for n in walk_own(pc.body):
-        if isinstance(n, ast.Return) and isinstance(n.value, ast.DictComp) and len(n.value.generators) == 1:
-            g = n.value.generators[0]
-            if not g.ifs and norm(g.iter) == f"{v}.items()" and isinstance(g.target, ast.Tuple):
-                k, sv = norm(g.target.elts[0]), norm(g.target.elts[1])
-                ok2 = norm(n.value.key) == f"self[{k}].name or {k}" and norm(n.value.value) == f"self[{k}]({sv})"
-    res.check(ok2, pc, "{self[key].name or key: self[key](sub_value) for key, sub_value in value.items()}",
+    ok2 = None
+    for b in bpc:
+        if b.kind == "dict" and isinstance(b.target, ast.Tuple) and len(b.target.elts) == 2 and has("self[MV_k](MV_x)", b.elt):
+            k, sv = norm(b.target.elts[0]), norm(b.target.elts[1])
+            good = not b.guards and norm(b.iter) == f"{v}.items()" and norm(b.key) == f"self[{k}].name or {k}" \
+                and norm(b.elt) == f"self[{k}]({sv})"
+            ok2 = good if ok2 is None else (ok2 and good)
+    res.judge(ok2, pc, "{self[key].name or key: self[key](sub_value) for key, sub_value in value.items()}",
               reason="every member of the merged dict is rebuilt: declared ones under their Python name, others under their JSON name")
     init = ctx.func("Object.__init__")
     ok3 = False
@@ -1609,3 +1622,27 @@ def g12(ctx, res):
               reason="untyped object results are plain dicts of every rebuilt member")
     ip = ctx.func("Items.property")
     res.check(has("return MV_p.evolve(name=MV__)", ip), ip, "return property_.evolve(name=...)", reason="per-index property variant")
+
+
+# --------------------------------------------------------------------- G13
+@rule("G13", "distinct members of an accepted object get distinct result keys")
+def g13(ctx, res):
+    pc = ctx.func("Properties.__call__")
+    v = pc.params[1].name
+    vpc = V(ctx, pc, keep=(v,)).body
+    verdict = None
+    for b in builders(vpc):
+        if b.kind == "dict" and isinstance(b.target, ast.Tuple) and len(b.target.elts) == 2 and norm(b.iter) == f"{v}.items()":
+            k = norm(b.target.elts[0])
+            if norm(b.key) == f"self[{k}].name or {k}":
+                # declared members are renamed to their Python name, all others keep their JSON name: injective only if
+                # some test keeps an undeclared key from equalling a declared Python name
+                tests = [n for n in walk_own(vpc) if isinstance(n, ast.Compare) and any(isinstance(o, (ast.In, ast.NotIn)) for o in n.ops)
+                         and ("self.props" in norm(n) or ".name" in norm(n))]
+                verdict = True if tests else False
+            elif norm(b.key) == k:
+                verdict = True
+    res.judge(verdict, pc, "{self[key].name or key: ... for key, sub_value in value.items()}",
+              reason="a declared property is stored under its Python name and every other member under its JSON name, with no "
+                     "test that the two name spaces stay apart: M({'$id': 'x', 'dollar_sign_id': 5}) for a model declaring "
+                     "'$id' (attribute dollar_sign_id) keeps only 5 - the declared member is dropped")
